@@ -233,6 +233,40 @@ def pmap(func, items, chunksize=None):
     return res
 
 
+def pmap_guarded(func, items, per_item_timeout, on_timeout):
+    """Like pmap, but every item has a hard deadline enforced from outside the worker (a computation stuck in C code
+    or a worker killed by the OOM killer cannot hang the check); on_timeout(item) supplies the result for such an item."""
+    items = list(items)
+    if not items:
+        return []
+    ctx = mp.get_context("fork")
+    t0 = time.time()
+    results = [None] * len(items)
+    todo = list(range(len(items)))
+    while todo:
+        pool = ctx.Pool(NCPU, initializer=_init_worker, initargs=(REPO,), maxtasksperchild=2000)
+        handles = [(i, pool.apply_async(func, (items[i],))) for i in todo]
+        stuck = None
+        for i, h in handles:
+            try:
+                results[i] = h.get(timeout=per_item_timeout if stuck is None else 0.01)
+            except mp.TimeoutError:
+                if stuck is None:
+                    stuck = i
+            except Exception as ex:  # noqa  worker-side machinery failure
+                pool.terminate()
+                raise MachineryError(f"worker failed on item {i}: {type(ex).__name__}: {ex}") from ex
+        pool.terminate()
+        pool.join()
+        if stuck is None:
+            todo = []
+        else:
+            results[stuck] = on_timeout(items[stuck])
+            todo = [i for i in todo if results[i] is None]
+    dbg(f"pmap_guarded {getattr(func, '__name__', '?')} {len(items)} items {time.time() - t0:.1f}s")
+    return results
+
+
 def cap(items, n, rng):
     """At most n items: a seeded sample that keeps order (and renumbers nothing)."""
     items = list(items)
